@@ -41,6 +41,42 @@ def interesting(beh):
                for i in calls)
 
 
+DEFECTS = ["clscache", "ctorglob", "objcache", "timelag", "accum", "batchpos"]
+CLASS_LEVEL = {"clscache", "ctorglob"}          # what the bystander of the scan drivers can expose
+
+
+def defect_model():
+    wd = tlc.workdir("C06defects")
+    out = {}
+
+    def violated(module, base, d, planset=None):
+        txt = open(os.path.join(tlc.SPEC, base)).read().replace('Defect = "none"', 'Defect = "%s"' % d)
+        if planset:
+            txt = txt.replace('PlanSet = "templates"', 'PlanSet = "%s"' % planset)
+        name = "%s_%s_%s.cfg" % (module, d, planset or "all")
+        with open(os.path.join(wd, name), "w") as f:
+            f.write(txt)
+        r = tlc.run(module, name, "C06def_%s_%s_%s" % (module, d, planset), workers=1, moddir=wd, timeout=600)
+        if not r["ok"] and not r["invariant_violated"]:
+            raise tlc.TLCError("defect model %s/%s failed: %s" % (module, d, r["error"]))
+        return bool(r["invariant_violated"]), r
+    states = 0
+    for d in ["none"] + DEFECTS:
+        vis, r1 = violated("InterpDefects", "InterpDefects.cfg", d)
+        tpl, r2 = violated("InterpDefectsTpl", "InterpDefectsTpl.cfg", d, "templates")
+        scn, r3 = violated("InterpDefectsTpl", "InterpDefectsTpl.cfg", d, "scan")
+        states += r1.get("distinct", 0) + r2.get("distinct", 0) + r3.get("distinct", 0)
+        out[d] = {"visible_in_some_behaviour": vis, "exposed_by_a_template": tpl, "exposed_by_scan_with_bystander": scn}
+        if d == "none" and (vis or tpl or scn):
+            raise RuntimeError("defect model: Pure is violated without a defect")
+        if d != "none" and not (vis and tpl):
+            raise RuntimeError("defect model: %s is %s" % (d, "not visible" if not vis else "not exposed by any template of InterpPlans"))
+        if d != "none" and scn != (d in CLASS_LEVEL):
+            raise RuntimeError("defect model: scan-with-bystander exposure of %s is %s (expected %s)" % (d, scn, d in CLASS_LEVEL))
+    out["states"] = states
+    return out
+
+
 def run(tier):
     t0 = time.time()
     verdict = core.Verdict("C06")
@@ -54,6 +90,9 @@ def run(tier):
                          {"tlc": mres["out"][-3000:]})
         else:
             raise tlc.TLCError("InterpMC failed: %s" % mres["error"])
+    # 1b. the defect model (spec/InterpDefects.tla): every modelled way of leaking state is visible to TLC, is exposed by one of
+    #     the templates replayed below, and (class-level defects) by the bystander pattern of the law checks; "none" is clean
+    defects = defect_model()
     # 2. behaviours over the concrete classes (seeded simulation)
     classes = [c for c in registry.STATEFUL if (c not in SLOW) and c not in TEMPLATE_ONLY]
     tclasses = classes + sorted(TEMPLATE_ONLY)
@@ -190,9 +229,10 @@ def run(tier):
                          {"behaviour": b, "event": e, "clause": clause,
                           "batch": binfo[e["bid"]] if e.get("op") == "Batch" else None})
     rc = verdict.finish()
-    cov = {"states": mres.get("distinct", 0) + tres.get("distinct", 0) + gres.get("distinct", 0),
+    cov = {"states": mres.get("distinct", 0) + tres.get("distinct", 0) + gres.get("distinct", 0) + defects.get("states", 0),
            "transitions": mres.get("states", 0) + tres.get("states", 0) + gres.get("states", 0),
            "traces_validated_against_impl": len(behs),
+           "defect_model": defects,
            "samples": [{"behaviour": behs[0], "events": [e for e in events[:12] if e.get("op") == "Call"][:2]}],
            "evaluations": ncalls, "distinct_nontrivial": len(nontriv),
            "rule": "Interp.tla model-checked exhaustively on abstract classes (one per kind of state; all interleavings of Construct/SetTol/Solve/Call over 2 objects, "
